@@ -7,6 +7,7 @@ import (
 	"encoding/hex"
 	"fmt"
 	"io"
+	"math/big"
 	"strings"
 
 	"golang.org/x/crypto/hkdf"
@@ -90,6 +91,19 @@ func c08attester() *type3.RateLimitedAttester {
 // each is its own origin with its own index key
 var c08Origins = []string{"a.example", "b.example", "c.example", "a.example.", "A.example", "a.example ", "a.exampl", "b.example.", "c.example/"}
 
+// c08Ref: the stated formula computed without the repository's key-blinding code: HKDF-SHA-384 with the client key as
+// salt over the compressed encoding of the client key multiplied by hash_to_field(index key bytes ‖ 0x00 ‖ context)
+// (math/big scalar, circl's hash-to-field, the standard library's curve), info "IssuerOriginAlias"
+func c08Ref(cl *t3Client, indexKey []byte) []byte {
+	bp := refBlind("P-384", cl.sk.X, cl.sk.Y, new(big.Int).SetBytes(indexKey), t3ctx("IssuerBlind"))
+	ref := make([]byte, 48)
+	if bp == nil {
+		return ref
+	}
+	io.ReadFull(hkdf.New(sha512.New384, elliptic.MarshalCompressed(elliptic.P384(), bp[0], bp[1]), cl.pubEnc, []byte("IssuerOriginAlias")), ref)
+	return ref
+}
+
 func runC08(c *Ctx) {
 	r := NewRng(c.Seed, "c08")
 	helper := newT3Client(r)
@@ -128,10 +142,7 @@ func runC08(c *Ctx) {
 				first = out
 			}
 			// the stated formula, computed outside the attester with x/crypto's HKDF
-			ikRef, _ := ecdsa.CreateKey(elliptic.P384(), ikBytes)
-			bp, _ := ecdsa.BlindPublicKeyWithContext(elliptic.P384(), &cl.sk.PublicKey, ikRef, t3ctx("IssuerBlind"))
-			ref := make([]byte, 48)
-			io.ReadFull(hkdf.New(sha512.New384, elliptic.MarshalCompressed(elliptic.P384(), bp.X, bp.Y), cl.pubEnc, []byte("IssuerOriginAlias")), ref)
+			ref := c08Ref(cl, ikBytes)
 			c.Direct(out == "ok "+hxv(ref), "ID is not HKDF-SHA-384(salt = client key, ikm = client key blinded by the index key, info = IssuerOriginAlias)", in)
 			c.Direct(out == first, "ID differs between two requests of the same client for the same index key", in)
 		}
@@ -148,10 +159,7 @@ func runC08(c *Ctx) {
 			ik2 := r.Bytes(48)
 			o := c.Run("c08.id", hx(cl.pubEnc), hx(ik2), hx(cl.secret), hx(blind0), hx(r.Bytes(32)), "-", hx([]byte(origins[(p+1)%len(origins)])), fmt.Sprint(p%2))
 			c.Count("id:same-blind-other-index-key")
-			ikRef, _ := ecdsa.CreateKey(elliptic.P384(), ik2)
-			bp, _ := ecdsa.BlindPublicKeyWithContext(elliptic.P384(), &cl.sk.PublicKey, ikRef, t3ctx("IssuerBlind"))
-			ref := make([]byte, 48)
-			io.ReadFull(hkdf.New(sha512.New384, elliptic.MarshalCompressed(elliptic.P384(), bp.X, bp.Y), cl.pubEnc, []byte("IssuerOriginAlias")), ref)
+			ref := c08Ref(cl, ik2)
 			c.Direct(o == "ok "+hxv(ref) && o != first, "ID for a second index key, requested with the same request blind, is not the ID of that index key",
 				map[string]any{"client": hx(cl.pubEnc), "indexKey": hx(ik2), "blind": hx(blind0), "impl": o, "first": first})
 		}
@@ -160,16 +168,78 @@ func runC08(c *Ctx) {
 		{
 			pairs := [][2]string{{"shop.example", "Shop.example"}, {"Shop.Example", "shop.example"}, {"shop.example", "shop.example."}, {"shop.example.", "shop.example"},
 				{"shop.example", " shop.example"}, {"shop.example", "shop.example "}, {"xn--shop", "XN--SHOP"}}
+			// a long name and the name a narrower length computation would cut it to (block count or byte count kept in 8 bits,
+			// or only the first block): both registered, each with its own key
+			mkLong := func(n int) string {
+				b := r.Bytes(n)
+				for k := range b {
+					b[k] = 'a' + b[k]%26
+				}
+				return string(b)
+			}
+			l1 := mkLong(8193 + r.IntN(32))
+			pairs = append(pairs, [2]string{l1, l1[:32]})
+			l2 := mkLong(8192 + 64 + r.IntN(32))
+			pairs = append(pairs, [2]string{l2, l2[:((len(l2)+32-len(l2)%32)/32%256)*32]})
+			l3 := mkLong(300 + r.IntN(200))
+			pairs = append(pairs, [2]string{l3, l3[:(len(l3)+32-len(l3)%32)%256]}, [2]string{l3, l3[:32]}, [2]string{l3[:32], l3})
 			pr := pairs[p%len(pairs)]
 			ikA, ikB := r.Bytes(48), r.Bytes(48)
 			o := c.Run("c08.id", hx(cl.pubEnc), hx(ikA), hx(cl.secret), hx(r.Bytes(48)), hx(r.Bytes(32)), "-", hx([]byte(pr[0])), fmt.Sprint(p%2), hx([]byte(pr[1])), hx(ikB))
 			c.Count("id:near-variant-origins")
-			ikRef, _ := ecdsa.CreateKey(elliptic.P384(), ikA)
-			bp, _ := ecdsa.BlindPublicKeyWithContext(elliptic.P384(), &cl.sk.PublicKey, ikRef, t3ctx("IssuerBlind"))
-			ref := make([]byte, 48)
-			io.ReadFull(hkdf.New(sha512.New384, elliptic.MarshalCompressed(elliptic.P384(), bp.X, bp.Y), cl.pubEnc, []byte("IssuerOriginAlias")), ref)
+			ref := c08Ref(cl, ikA)
 			c.Direct(o == "ok "+hxv(ref), "with a second, similarly named origin registered, the ID is not derived from the requested origin's own index key",
 				map[string]any{"origin": pr[0], "other": pr[1], "impl": o})
+		}
+		// two requests of one client in flight at once at one attester (other blinds, other origins and index keys): both are
+		// verified before either index is finalized, in both finalization orders
+		{
+			ik1, ik2 := r.Bytes(48), r.Bytes(48)
+			b1, b2 := r.Bytes(48), r.Bytes(48)
+			e := getC07Env(c.Seed, p%2, c08Origins)
+			k1, _ := ecdsa.CreateKey(elliptic.P384(), ik1)
+			k2, _ := ecdsa.CreateKey(elliptic.P384(), ik2)
+			e.issuer.AddOriginWithIndexKey("inflight-1.example", k1)
+			e.issuer.AddOriginWithIndexKey("inflight-2.example", k2)
+			reseedRand(c.Seed, "c08.inflight:"+hx(b1))
+			client := type3.NewRateLimitedClientFromSecret(cl.secret)
+			var got [2][]byte
+			var errs []string
+			if Try(func() {
+				st1, err := client.CreateTokenRequest(r.Bytes(9), r.Bytes(32), b1, e.issuer.TokenKeyID(), e.issuer.TokenKey(), "inflight-1.example", e.issuer.NameKey())
+				must(err)
+				st2, err := client.CreateTokenRequest(r.Bytes(9), r.Bytes(32), b2, e.issuer.TokenKeyID(), e.issuer.TokenKey(), "inflight-2.example", e.issuer.NameKey())
+				must(err)
+				_, brk1, err := e.issuer.Evaluate(st1.Request().Marshal())
+				must(err)
+				_, brk2, err := e.issuer.Evaluate(st2.Request().Marshal())
+				must(err)
+				att := c08attester()
+				note := func(err error) {
+					if err != nil {
+						errs = append(errs, err.Error())
+					}
+				}
+				note(att.VerifyRequest(*st1.Request(), b1, st1.ClientKey(), []byte("anon-inflight-1")))
+				note(att.VerifyRequest(*st2.Request(), b2, st2.ClientKey(), []byte("anon-inflight-2")))
+				var err1, err2 error
+				if p%2 == 0 {
+					got[0], err1 = att.FinalizeIndex(st1.ClientKey(), b1, brk1, []byte("anon-inflight-1"))
+					got[1], err2 = att.FinalizeIndex(st2.ClientKey(), b2, brk2, []byte("anon-inflight-2"))
+				} else {
+					got[1], err2 = att.FinalizeIndex(st2.ClientKey(), b2, brk2, []byte("anon-inflight-2"))
+					got[0], err1 = att.FinalizeIndex(st1.ClientKey(), b1, brk1, []byte("anon-inflight-1"))
+				}
+				note(err1)
+				note(err2)
+			}) {
+				errs = append(errs, "panic")
+			}
+			c.Count("id:two-requests-in-flight")
+			c.Direct(len(errs) == 0 && bytes.Equal(got[0], c08Ref(cl, ik1)) && bytes.Equal(got[1], c08Ref(cl, ik2)),
+				"two requests of one client verified before either index was finalized: an ID is not that of its origin's index key",
+				map[string]any{"client": hx(cl.pubEnc), "secret": hx(cl.secret), "indexKey1": hx(ik1), "indexKey2": hx(ik2), "blind1": hx(b1), "blind2": hx(b2),
+					"first_finalized": 1 + p%2, "id1": hx(got[0]), "id2": hx(got[1]), "errors": strings.Join(errs, "; ")})
 		}
 		// same index key, another client; same client, another index key -> different IDs (checked through `seen`)
 		if p%3 == 0 {
